@@ -73,7 +73,16 @@ def clex_entry(g, gid=None):
     return e
 
 
+def unique_term_names(terms):
+    """ctpg resolves the symbols of a rule by NAME: two terms with one name (two equal patterns, a regex term named like a
+    string term) alias each other in every rule.  Such term lists are outside what a parser-level check can describe."""
+    n = gen_tu.lex_names(terms)
+    return len(set(n)) == len(n)
+
+
 def lex_entry(name, terms, shape='list'):
+    if not unique_term_names(terms):
+        raise ValueError('terms with equal names alias each other in ctpg rules: ' + repr(gen_tu.lex_names(terms)))
     gid = '%s@lex' % name
     e = Entry(gid, LexGrammar(name, terms, shape), 'gen', gen_tu.lex_tla_json(gid, terms, shape))
     e.lexterms = terms
